@@ -517,6 +517,20 @@ package main
   (ensures returns-callbacks-verdict (and (= $r0 (callresult "main.callback" 0 0)) (= $r1 (callresult "main.callback" 0 1))
                                           (= $r2 (callresult "main.callback" 0 2)))))
 
+; the saslauthd listeners install exactly these closures as the server's callback and run that server
+(fnconst fnSaslSocketCb "main.runSaslAuthSocket$1")
+(fnconst fnSaslListenerCb "main.runSaslAuthSocketListener$1")
+(func "main.runSaslAuthSocket"
+  (props C04)
+  (noframe)
+  (callsite "sasl.NewServer" 0 (requires callback-asks-the-store (= $1 fnSaslSocketCb)))
+  (callsite "(*sasl.Server).Run" 0 (requires the-server-just-built (= $0 (callresult "sasl.NewServer" 0 0)))))
+(func "main.runSaslAuthSocketListener"
+  (props C04)
+  (noframe)
+  (callsite "sasl.NewServerFromListener" 0 (requires callback-asks-the-store (= $1 fnSaslListenerCb)))
+  (callsite "(*sasl.Server).Run" 0 (requires the-server-just-built (= $0 (callresult "sasl.NewServerFromListener" 0 0)))))
+
 (func "(main.ldapHandler).Bind"
   (props C04 C15)
   (callsite "(*main.Store).Authenticate" 0
